@@ -2,7 +2,7 @@
 //!
 
 use std::{
-    collections::{HashMap, HashSet},
+    collections::HashMap,
     fmt::{Debug, Display},
     fs,
     path::Path,
@@ -375,18 +375,20 @@ where
         let mut matrix = Self::new_with_size(size);
         matrix.set_taxa(names.iter().cloned().map(|v| v.to_string()).collect_vec())?;
 
-        let mut seen = HashSet::new();
-
-        for (n1, row) in names.iter().zip(rows) {
-            for (n2, dist) in names.iter().zip(row) {
-                if seen.contains(&(n2.to_string(), n1.to_string())) {
-                    let known = matrix.get(n1, n2)?;
-                    if *known != dist {
-                        return Err(PhylipParseError::NonSymmetric(*known, dist));
+        // Cells are addressed by position: row labels need not be distinct
+        for (i, row) in rows.iter().enumerate() {
+            for (j, dist) in row.iter().enumerate() {
+                if i == j {
+                    continue;
+                }
+                let idx = matrix.tril_to_vec_index(i, j)?;
+                if square && j < i {
+                    let known = matrix.matrix[idx];
+                    if known != *dist {
+                        return Err(PhylipParseError::NonSymmetric(known, *dist));
                     }
                 } else {
-                    seen.insert((n1.to_string(), n2.to_string()));
-                    matrix.set(n1, n2, dist)?;
+                    matrix.matrix[idx] = *dist;
                 }
             }
         }
